@@ -3,7 +3,7 @@
 From PV Require Import Base.Prelude Base.Slice Model.EncodeBase Model.Encode Model.EncodeCompose Model.EncodeDHCP
      Spec.EncodeRef Spec.EncodeRefDHCP
      Proofs.Encode Proofs.EncodeIP4 Proofs.EncodeEther Proofs.EncodeMisc Proofs.EncodeCompose Proofs.EncodeDHCP
-     Proofs.EncodeDNS Proofs.EncodeIP6Frame Proofs.EncodeRound3.
+     Proofs.EncodeDNS Proofs.EncodeIP6Frame Proofs.EncodeRound3 Proofs.EncodeReuse.
 Open Scope N_scope.
 
 (* EncodeEther: for every buffer of capacity >= 14 (any length, any contents), every
@@ -27,22 +27,22 @@ Example C03_ether_rt_ex :
 Proof. exact ether_rt_ex. Qed.
 Print Assumptions C03_ether_rt_ex.
 
-(* AppendPayload returns ErrPayloadTooBig exactly when the payload exceeds the remaining
-   capacity.  In the model an error result is produced before any write (an [Err] carries
+(* AppendPayload returns ErrPayloadTooBig exactly when header + payload exceed the capacity of the view
+   (since repo commits 846ede1 / 02073d4 / 952afb8 measured from the header, whatever the view's length).  In the model an error result is produced before any write (an [Err] carries
    no buffer); that the real buffer is untouched is observed by the correspondence (the
    changed window of the whole capacity is part of every observation). *)
 Theorem C03_ip4_append_too_big : forall p b proto,
-  (cap p - len p < length b)%nat <-> ip4_append p b proto = Err EPayloadTooBig.
+  (cap p < 20 + length b)%nat <-> ip4_append p b proto = Err EPayloadTooBig.
 Proof. exact ip4_append_too_big. Qed.
 Print Assumptions C03_ip4_append_too_big.
 
 Theorem C03_udp_append_too_big : forall p b,
-  (cap p - len p < length b)%nat <-> udp_append p b = Err EPayloadTooBig.
+  (cap p < 8 + length b)%nat <-> udp_append p b = Err EPayloadTooBig.
 Proof. exact udp_append_too_big. Qed.
 Print Assumptions C03_udp_append_too_big.
 
 Theorem C03_ip6_append_too_big : forall p b nh,
-  (cap p - len p < length b)%nat <-> ip6_append p b false nh = Err EPayloadTooBig.
+  (cap p < 40 + length b)%nat <-> ip6_append p b false nh = Err EPayloadTooBig.
 Proof. exact ip6_append_too_big. Qed.
 Print Assumptions C03_ip6_append_too_big.
 
@@ -539,7 +539,7 @@ Print Assumptions C03_dhcp4_is_valid.
 Theorem C03_ip4_append_unchanged : forall p b proto,
 
   fst (ip4_append_st p b proto) = ip4_append p b proto /\
-  ((cap p - len p < length b)%nat <-> ip4_append_st p b proto = (Err EPayloadTooBig, arr p)) /\
+  ((cap p < 20 + length b)%nat <-> ip4_append_st p b proto = (Err EPayloadTooBig, arr p)) /\
   (fst (ip4_append_st p b proto) = Err EPayloadTooBig -> snd (ip4_append_st p b proto) = arr p).
 Proof. exact ip4_append_st_too_big. Qed.
 Print Assumptions C03_ip4_append_unchanged.
@@ -548,7 +548,7 @@ Print Assumptions C03_ip4_append_unchanged.
 Theorem C03_udp_append_unchanged : forall p b,
 
   fst (udp_append_st p b) = udp_append p b /\
-  ((cap p - len p < length b)%nat <-> udp_append_st p b = (Err EPayloadTooBig, arr p)) /\
+  ((cap p < 8 + length b)%nat <-> udp_append_st p b = (Err EPayloadTooBig, arr p)) /\
   (fst (udp_append_st p b) = Err EPayloadTooBig -> snd (udp_append_st p b) = arr p).
 Proof. exact udp_append_st_too_big. Qed.
 Print Assumptions C03_udp_append_unchanged.
@@ -557,7 +557,7 @@ Print Assumptions C03_udp_append_unchanged.
 Theorem C03_ip6_append_unchanged : forall p b isnil nh,
 
   fst (ip6_append_st p b isnil nh) = ip6_append p b isnil nh /\
-  ((isnil = true \/ (cap p - len p < length b)%nat) <-> ip6_append_st p b isnil nh = (Err EPayloadTooBig, arr p)) /\
+  ((isnil = true \/ (cap p < 40 + length b)%nat) <-> ip6_append_st p b isnil nh = (Err EPayloadTooBig, arr p)) /\
   (fst (ip6_append_st p b isnil nh) = Err EPayloadTooBig -> snd (ip6_append_st p b isnil nh) = arr p).
 Proof. exact ip6_append_st_too_big. Qed.
 Print Assumptions C03_ip6_append_unchanged.
@@ -574,3 +574,75 @@ Print Assumptions C03_ether_append_unchanged.
 Theorem C03_ip6_append_nil_rejected : forall p nh, ip6_append_st p [] true nh = (Err EPayloadTooBig, arr p).
 Proof. exact ip6_append_nil_rejected. Qed.
 Print Assumptions C03_ip6_append_nil_rejected.
+
+(* ---------------------------------------------------------------- *)
+(* Re-use of views.  SetPayload / AppendPayload are ABSOLUTE: for ANY starting view length (the
+   header-only view, the view a previous SetPayload/AppendPayload returned, a longer view) and any
+   previous length / protocol / checksum octets in the header, the result is header + payload with a
+   consistent length field and decodes to the supplied values; calling SetPayload again on the
+   returned view equals calling it once.  (IP4.SetPayload always was absolute; IP4.AppendPayload,
+   UDP.* and IP6.* were relative to len(p) - finding reuse-relative-length - until repo commits
+   846ede1, 02073d4, 952afb8.) *)
+Theorem C03_ip4_set_payload_idempotent_shape : forall x2 x3 x9 x10 x11 ttl src dst rest L b proto,
+  length src = 4%nat -> length dst = 4%nat -> bytes_ok src -> bytes_ok dst -> bytes_ok b ->
+  ttl < 256 -> proto < 256 -> (12 <= L)%nat -> (length b <= length rest)%nat -> 20 + N.of_nat (length b) < 65536 ->
+  firstn (length b) rest = b ->
+  exists r,
+    ip4_set_payload (mkSlice (ip4_hdr_any x2 x3 x9 x10 x11 ttl src dst ++ rest) L) (length b) proto = Ok r /\
+    len r = (20 + length b)%nat /\ skipn 20 (arr r) = rest /\
+    ip4_decode_lib r = Ok (ip4_expected_view ttl proto src dst b) /\
+    ref_ip4 (view r) = Some (ip4_expected_ref ttl proto src dst b) /\
+    (* calling it again on the returned view, with any other size that fits, is the same as calling it once *)
+    (forall n2 proto2, (n2 <= length rest)%nat -> 20 + N.of_nat n2 < 65536 ->
+       ip4_set_payload r n2 proto2 =
+       ip4_set_payload (mkSlice (ip4_hdr_any x2 x3 x9 x10 x11 ttl src dst ++ rest) L) n2 proto2).
+Proof. exact ip4_set_payload_idempotent_shape. Qed.
+Print Assumptions C03_ip4_set_payload_idempotent_shape.
+
+Theorem C03_ip4_append_absolute : forall x2 x3 x9 x10 x11 ttl src dst rest L b proto,
+  length src = 4%nat -> length dst = 4%nat -> bytes_ok src -> bytes_ok dst -> bytes_ok b ->
+  ttl < 256 -> proto < 256 -> (length b <= length rest)%nat -> 20 + N.of_nat (length b) < 65536 ->
+  exists r,
+    ip4_append (mkSlice (ip4_hdr_any x2 x3 x9 x10 x11 ttl src dst ++ rest) L) b proto = Ok r /\
+    len r = (20 + length b)%nat /\
+    ip4_decode_lib r = Ok (ip4_expected_view ttl proto src dst b) /\
+    ref_ip4 (view r) = Some (ip4_expected_ref ttl proto src dst b).
+Proof. exact ip4_append_absolute. Qed.
+Print Assumptions C03_ip4_append_absolute.
+
+Theorem C03_udp_set_payload_idempotent_shape : forall sp dp x4 x5 x6 x7 rest L b,
+  sp < 65536 -> dp < 65536 -> bytes_ok b -> (length b <= length rest)%nat -> 8 + N.of_nat (length b) < 65536 ->
+  firstn (length b) rest = b ->
+  exists r,
+    udp_set_payload (mkSlice (udp_hdr_any sp dp x4 x5 x6 x7 ++ rest) L) (length b) = Ok r /\
+    len r = (8 + length b)%nat /\ skipn 8 (arr r) = rest /\
+    udp_decode_lib r = Ok (udp_expected_view sp dp b) /\
+    ref_udp (view r) = Some (udp_expected_ref sp dp b) /\
+    (forall n2, (n2 <= length rest)%nat ->
+       udp_set_payload r n2 = udp_set_payload (mkSlice (udp_hdr_any sp dp x4 x5 x6 x7 ++ rest) L) n2).
+Proof. exact udp_set_payload_idempotent_shape. Qed.
+Print Assumptions C03_udp_set_payload_idempotent_shape.
+
+Theorem C03_udp_append_absolute : forall sp dp x4 x5 x6 x7 rest L b,
+  sp < 65536 -> dp < 65536 -> bytes_ok b -> (length b <= length rest)%nat -> 8 + N.of_nat (length b) < 65536 ->
+  exists r,
+    udp_append (mkSlice (udp_hdr_any sp dp x4 x5 x6 x7 ++ rest) L) b = Ok r /\
+    len r = (8 + length b)%nat /\
+    udp_decode_lib r = Ok (udp_expected_view sp dp b) /\ ref_udp (view r) = Some (udp_expected_ref sp dp b).
+Proof. exact udp_append_absolute. Qed.
+Print Assumptions C03_udp_append_absolute.
+
+Theorem C03_ip6_set_payload_idempotent_shape : forall x4 x5 x6 hop s d rest L b nh,
+  length s = 16%nat -> length d = 16%nat -> bytes_ok s -> bytes_ok d -> bytes_ok b ->
+  nh < 256 -> hop < 256 -> (7 <= L)%nat -> (length b <= length rest)%nat -> 40 + N.of_nat (length b) < 65536 ->
+  firstn (length b) rest = b ->
+  exists r,
+    ip6_set_payload (mkSlice (ip6_hdr_any x4 x5 x6 hop s d ++ rest) L) (length b) nh = Ok r /\
+    len r = (40 + length b)%nat /\
+    ip6_decode_lib r = Ok (ip6_expected_view nh hop s d b) /\
+    ref_ip6 (view r) = Some (ip6_expected_ref nh hop s d b) /\
+    (forall n2 nh2, (n2 <= length rest)%nat ->
+       ip6_set_payload r n2 nh2 = ip6_set_payload (mkSlice (ip6_hdr_any x4 x5 x6 hop s d ++ rest) L) n2 nh2).
+Proof. exact ip6_set_payload_idempotent_shape. Qed.
+Print Assumptions C03_ip6_set_payload_idempotent_shape.
+
